@@ -235,6 +235,11 @@ CFG = {
         "values, keys, functions and objects are identified by SameValue class codes assigned by the harness",
     ],
     "assumptions": [
+        "forwarding transparency is claimed for ordinary targets (theorem) and checked impl-vs-impl on exotic ones, with ONE "
+        "spec-sanctioned exemption (a property of ECMA-262, not a finding): defineProperty(proxy over Array, 'length', {value: v}) "
+        "where the length ends up non-writable and v is not SameValue to ToUint32(v) (-0, '3'): ArraySetLength stores "
+        "ToUint32(v), the proxy's 10.5.6 post-trap check compares the original v and must throw TypeError while the target "
+        "itself accepts; such steps are tagged spec-exempt=array-length-normalised and both sides stay in the same state",
         "targets of the lattice are ordinary objects (and plain functions for apply/construct); exotic targets are covered "
         "only by the impl-vs-impl forwarding histories",
         "the trap result is taken as given (post-trap target state is the model's input); re-entrant mutation by traps is "
